@@ -141,29 +141,30 @@ def build_flow(leaf_builders, features, base="standard", seed=0):
     return flow.double().eval()
 
 
-def grid(tp, n, xmax=1e13):
-    """(x, w): midpoints and weights for the data space tp"""
+def umap(tp, xmax=1e13):
+    """(ua, ub, x(u), dx/du(u)): the data space tp as the image of a uniform parameter u"""
     if tp == "R":
         Umax = math.asinh(xmax)
-        du = 2 * Umax / n
-        u = -Umax + du * (np.arange(n) + 0.5)
-        return np.sinh(u), np.cosh(u) * du
+        return -Umax, Umax, np.sinh, np.cosh
     if tp == "U":
-        du = 80.0 / n
-        u = -40 + du * (np.arange(n) + 0.5)
-        x = 1 / (1 + np.exp(-u))
-        return x, x * (1 - x) * du
+        sg = lambda u: 1 / (1 + np.exp(-u))
+        return -40.0, 40.0, sg, lambda u: sg(u) * (1 - sg(u))
     if tp == "P":
-        du = 1400.0 / n  # x = exp(u) over the whole float64 range: chains with Cauchy-type leaves have 1/x tails in log x
-        u = -700 + du * (np.arange(n) + 0.5)
-        x = np.exp(u)
-        return x, x * du
+        # x = exp(u) over the whole float64 range: chains with Cauchy-type leaves have 1/x tails in log x
+        return -700.0, 700.0, np.exp, np.exp
     if tp == "S":
-        du = 40.0 / n
-        u = -20 + du * (np.arange(n) + 0.5)
-        x = np.tanh(u)
-        return x, (1 - x ** 2) * du
+        return -20.0, 20.0, np.tanh, lambda u: 1 - np.tanh(u) ** 2
     raise ValueError(tp)
+
+
+def grid(tp, n, xmax=1e13, urange=None):
+    """(x, w, u): midpoints, weights and parameters for the data space tp (optionally only the part u in urange)"""
+    ua, ub, fx, fw = umap(tp, xmax)
+    if urange is not None:
+        ua, ub = max(ua, urange[0]), min(ub, urange[1])
+    du = (ub - ua) / n
+    u = ua + du * (np.arange(n) + 0.5)
+    return fx(u), fw(u) * du, u
 
 
 DISC = ("LeakyReLU", "PiecewiseLinear", "MaskedLinearAR", "PiecewiseLinearCpl", "LogTanh")  # LogTanh: the slopes of its two branches differ at the cut point (the density jumps there)
@@ -174,9 +175,12 @@ def is_disc(names):
 
 
 def integrate_flow_1d(flow, tp, n, ctx=None, xmax=1e13):
-    res = []
-    for nn_ in (n, n // 2):
-        x, w = grid(tp, nn_, xmax)
+    """midpoint rule at n and n/2 points. A first pass over the whole parameter range locates the part that carries the mass
+    (all cells contributing more than 1e-12 of the total, so that at most ~1e-7 is left outside); the two evaluation passes then
+    spend all their points there -- this is what keeps densities with jumps (kinked / piecewise-linear leaves) resolved."""
+
+    def mass(urange, nn_):
+        x, w, u = grid(tp, nn_, xmax, urange)
         keep = w > 0
         if tp in ("U", "S"):
             lo, hi = (0.0, 1.0) if tp == "U" else (-1.0, 1.0)
@@ -187,7 +191,17 @@ def integrate_flow_1d(flow, tp, n, ctx=None, xmax=1e13):
             lp = flow.log_prob(xt, context=c).numpy()
         p = np.exp(lp)
         p[~np.isfinite(p)] = 0.0
-        res.append(float(np.sum(p * w[keep])))
+        return p * w[keep], u[keep]
+
+    c0, u0 = mass(None, n // 2)
+    tot = float(np.sum(c0))
+    urange, outside = None, 0.0
+    if tot > 0 and np.isfinite(tot):
+        big = np.nonzero(c0 > 1e-12 * tot)[0]
+        du0 = u0[1] - u0[0]
+        urange = (float(u0[big[0]] - 2 * du0), float(u0[big[-1]] + 2 * du0))
+        outside = float(np.sum(c0[(u0 < urange[0]) | (u0 > urange[1])]))
+    res = [float(np.sum(mass(urange, nn_)[0])) + outside for nn_ in (n, n // 2)]
     return res[0], res[1]
 
 
